@@ -483,6 +483,16 @@ impl Endpoint {
             .await
     }
 
+    /// Sizes of the internal tables: (transactions, managed transports, pending STUN transactions)
+    #[cfg(feature = "ezk-verif")]
+    pub fn verif_counts(&self) -> (usize, usize, usize) {
+        (
+            self.inner.transactions.verif_len(),
+            self.inner.transports.verif_managed_len(),
+            self.inner.transports.verif_stun_pending(),
+        )
+    }
+
     pub(crate) fn transactions(&self) -> &Transactions {
         &self.inner.transactions
     }
